@@ -13,7 +13,7 @@ Driver for C14: replays the harness' operations on the Transportation1d model.
                                        potentials computed here (Bellman-Ford on the residual
                                        difference constraints; untrusted search, trusted checker)
   loc                               -> loc ok    when the positions returned by `run` on the sorted
-                                       instance pass `locCertOk` with the sink prices computed here
+                                       instance pass `ivCertOk` with the sink prices computed here
                                        (closed formula: min of the left- and right-anchored chain
                                        prices; untrusted computation, trusted checker)
 -/
@@ -62,7 +62,7 @@ def potentials (pb : Problem) (plan : Plan) : List Int × List Int :=
   let base := dist[t]!
   ((List.range n).map fun i => dist[i]! - base, (List.range m).map fun j => dist[n + j]! - base)
 
-/-! ### sink prices for `locCertOk` (untrusted) -/
+/-! ### sink prices for `ivCertOk` (untrusted) -/
 
 def bigInf : Int := 1000000000000000000000000000000
 
@@ -116,7 +116,7 @@ def locOp (pb : Problem) : String :=
     let so ← mkSorter pb
     let sv ← convert so pb
     let p ← run sv
-    pure (locCertOk sv p (localPrices sv p))
+    pure (ivCertOk sv p (localPrices sv p))
   match r with
   | .ok true => "loc ok"
   | .ok false => "loc FAIL"
